@@ -1221,6 +1221,20 @@ func oracleC14Direct(doc, pr bson.D, st *oracleStats, fail func(string, string, 
 				return
 			}
 		}
+		// exactly the included paths: every leaf of the result lies at or
+		// below an included path (or _id)
+		for _, lp := range leaves {
+			covered := false
+			for _, p := range append([]string{"_id"}, incl...) {
+				if isPrefix(strings.Split(p, "."), strings.Split(lp, ".")) {
+					covered = true
+				}
+			}
+			if !covered {
+				fail("C14:inclusion-extra-leaf", "an inclusion returns a value outside every included path", detail("path", lp, "result", enc(*res)))
+				return
+			}
+		}
 		for _, p := range incl {
 			if hide && strings.Split(p, ".")[0] == "_id" {
 				continue
